@@ -44,7 +44,7 @@ pub uninterp spec fn run_eff<I: Send + Sync + SystemInput + 'static, O: Send + S
 pub trait Comp: Sized { spec fn of(v: &EntityView) -> Option<Self>; }
 impl<I: Send + Sync + SystemInput + 'static, O: Send + Sync + 'static> Comp for SpawnedSystem<I, O> { open spec fn of(v: &EntityView) -> Option<Self> { v.spawned::<I, O>() } }
 impl EntityView {
-    pub uninterp spec fn id(&self) -> Entity;
+    pub uninterp spec fn eid(&self) -> Entity;
     pub uninterp spec fn spawned<I: Send + Sync + SystemInput + 'static, O: Send + Sync + 'static>(&self) -> Option<SpawnedSystem<I, O>>;
     // EntityWorldMut::get_mut::<C>(): the entity's C component, if it has one; only that component can change through it
     #[verifier::external_body]
@@ -52,7 +52,7 @@ impl EntityView {
         ensures r is Some <==> C::of(old(self)) is Some,
                 r is Some ==> (*r->Some_0 == C::of(old(self))->Some_0 && C::of(final(self)) == Some(*final(r->Some_0))),
                 r is None ==> C::of(final(self)) == C::of(old(self)),
-                final(self).id() == old(self).id(),
+                final(self).eid() == old(self).eid(),
     { unimplemented!() }
 }
 /// `v` is the view of entity `e` in `w0`; when the handle is released with the view `fv`, the world is `w1`
@@ -65,7 +65,7 @@ impl World {
     pub fn get_entity_mut(&mut self, e: Entity) -> (r: Result<EntityWorldMut<'_>, EntityFetchError>)
         ensures r is Ok <==> old(self).alive().contains(e),
                 r is Err ==> *final(self) == *old(self),
-                r is Ok ==> (r->Ok_0.id() == e && final(self).alive() == old(self).alive() && #[trigger] view_of(*old(self), e, *r->Ok_0, *final(r->Ok_0), *final(self))),
+                r is Ok ==> (r->Ok_0.eid() == e && final(self).alive() == old(self).alive() && #[trigger] view_of(*old(self), e, *r->Ok_0, *final(r->Ok_0), *final(self))),
     { unimplemented!() }
 }
 // the view relation, per component type (ASSUMED; generic in (I, O), which a function contract cannot quantify over)
@@ -274,6 +274,34 @@ impl<I: Send + Sync + SystemInput + 'static, O: Send + Sync + 'static> CallbackS
 //@|     &&& (t.1 is Some ==> (same_but::<IdMappedSystems<I, O>>(t.0, *final(world)) && named::<I, O>(*final(world)) =~= named::<I, O>(t.0).insert(sys_name, Some(t.1->Some_0)))) }),
 //@thunk || IdMappedSystems::default() | ims_default | <I: Send + Sync + SystemInput + 'static, O: Send + Sync + 'static> | ::<I, O> | IdMappedSystems<I, O>
 //@lift| ensures r.systems.view() == Map::<SysName, Option<BoxedSystem<I, O>>>::empty(),
+
+// ---- spawn_system_from: a spawned system comes into being as ONE new entity whose component holds exactly that system ----------
+pub uninterp spec fn fresh(w: World) -> Entity;
+impl EntityView {
+    #[verifier::external_body]
+    pub fn id(&self) -> (r: Entity) ensures r == self.eid() { unimplemented!() }
+}
+impl World {
+    // World::spawn(component): ONE new entity (not alive before) carrying exactly that component
+    #[verifier::external_body]
+    pub fn spawn<I: Send + Sync + SystemInput + 'static, O: Send + Sync + 'static>(&mut self, c: SpawnedSystem<I, O>) -> (r: EntityWorldMut<'_>)
+        ensures r.eid() == fresh(*old(self)), !old(self).alive().contains(r.eid()), final(self).alive() == old(self).alive().insert(r.eid()),
+                final(self).spawned::<I, O>() == old(self).spawned::<I, O>().insert(r.eid(), c),
+    { unimplemented!() }
+}
+//@impl src/ecs/spawned_syscall.rs impl SysId
+//@fn src/ecs/spawned_syscall.rs impl SysId new ret=r
+//@| ensures r.0 == entity,
+//@fn src/ecs/spawned_syscall.rs impl SysId entity ret=r
+//@| ensures r == self.0,
+//@endimpl
+//@impl src/ecs/spawned_syscall.rs impl SpawnedSystem
+//@fn src/ecs/spawned_syscall.rs impl SpawnedSystem new ret=r
+//@| ensures r.system == Some(system),
+//@endimpl
+//@fn src/ecs/spawned_syscall.rs - spawn_system_from ret=r
+//@| ensures r.0 == fresh(*old(world)), !old(world).alive().contains(r.0), final(world).alive() == old(world).alive().insert(r.0),
+//@|         final(world).spawned::<I, O>() == old(world).spawned::<I, O>().insert(r.0, SpawnedSystem { system: Some(system) }),
 
 } // verus!
 fn main() {}
